@@ -207,3 +207,23 @@ def validate_traces(module, traces, *, invariants=("Report",), spec="Spec", time
         return verdicts, res
     finally:
         shutil.rmtree(d, ignore_errors=True)
+
+
+def validate_traces_parallel(module, traces, *, constants=None, batch=10, jobs=6, timeout=1800):
+    """validate_traces over several JVMs at once.  Returns (verdicts {1-based index: (verdict, l)}, [TLCResult])."""
+    from concurrent.futures import ThreadPoolExecutor
+    chunks = [(off, traces[off:off + batch]) for off in range(0, len(traces), batch)]
+
+    def one(c):
+        off, tr = c
+        v, r = validate_traces(module, tr, constants=constants, timeout=timeout)
+        return off, len(tr), v, r
+    verdicts, results = {}, []
+    with ThreadPoolExecutor(max_workers=jobs) as ex:
+        for off, n, v, r in ex.map(one, chunks):
+            results.append(r)
+            if len(v) != n:
+                r.error = (r.error or "") + f" monitor returned {len(v)} verdicts for {n} traces\n" + r.out[-2000:]
+            for t, x in v.items():
+                verdicts[off + t] = x
+    return verdicts, results
